@@ -134,6 +134,30 @@ def enumerate_cases(tier: str):
             doc = json.loads(text)
             doc["1"][key] = value
             yield {"kind": "content", "origin": "mutated", "data": json.dumps(doc)}
+    for value in (None, 5, "x", [], {}, True, 1.5, [1], {"id": 1}, {"x": 1}):
+        doc = json.loads(text)
+        doc["1"]["children"]["1"] = value
+        yield {"kind": "content", "origin": "mutated", "data": json.dumps(doc)}
+        doc = json.loads(text)
+        doc["1"]["children"] = {"x": value} if value is not None else {"x": doc["1"]["children"]["1"]}
+        yield {"kind": "content", "origin": "mutated", "data": json.dumps(doc)}
+        for ckey in ("id", "type", "description", "values"):
+            doc = json.loads(text)
+            doc["1"]["children"]["1"][ckey] = value
+            yield {"kind": "content", "origin": "mutated", "data": json.dumps(doc)}
+        doc = json.loads(text)
+        doc["1"]["children"]["1"]["values"] = {"49": value, "x": "1"}
+        yield {"kind": "content", "origin": "mutated", "data": json.dumps(doc)}
+    native = {"1": {"node_id": 1, "node_type": 17, "protocol_version": "2.0", "sketch_name": "", "sketch_version": "", "battery_level": 0, "heartbeat": 0, "sleeping": False,
+                    "children": {"1": {"child_id": 1, "child_type": 6, "description": "", "values": {"0": "1"}}}}}
+    for key in list(native["1"]):
+        for value in (None, 5, "x", [], {}, True, 1.5, -1, 300, "5", 101):
+            doc = json.loads(json.dumps(native))
+            doc["1"][key] = value
+            yield {"kind": "content", "origin": "mutated", "data": json.dumps(doc)}
+        doc = json.loads(json.dumps(native))
+        del doc["1"][key]
+        yield {"kind": "content", "origin": "mutated", "data": json.dumps(doc)}
     for top in (None, 5, "x", [], [1], [{}], True, 1.5, {"1": 5}, {"1": None}, {"1": []}, {"1": {}}, {"x": fixture["1"]}, {"1": "node"}):
         yield {"kind": "content", "origin": "json", "data": json.dumps(top)}
 
